@@ -143,8 +143,12 @@ impl Literal {
             .map(|(n, c)| (n.clone(), c.ty.clone()))
             .collect();
         let defs = Defs::new(&const_types, &checked.struct_defs, &checked.enum_defs);
-        let mut expr = scan(literal)?
-            .parse_literal()?
+        let mut untyped = scan(literal)?.parse_literal()?;
+        // Numbers without a type suffix get the type that is expected at their position before
+        // the literal is type-checked, so that e.g. `[(-1, 2), (3, -4)]` can be parsed as an
+        // array of (i32, i32) (the elements would otherwise be inferred as different tuple types).
+        untyped.annotate_numbers(checked, ty);
+        let mut expr = untyped
             .type_check(&top_level_defs, &mut env, &mut fns, &defs)
             .map_err(|errs| {
                 let mut errs: Vec<TypeError> = errs.into_iter().flatten().collect();
@@ -606,6 +610,75 @@ impl Display for Literal {
             Literal::Range(min, max, num_ty) => {
                 write!(f, "{min}{num_ty}..{max}{num_ty}")
             }
+        }
+    }
+}
+
+impl crate::UntypedExpr {
+    /// Gives number literals without a type suffix the number type expected at their position.
+    fn annotate_numbers(&mut self, checked: &TypedProgram, expected: &Type) {
+        match (&mut self.inner, expected) {
+            (ExprEnum::NumUnsigned(_, suffix), Type::Unsigned(ty))
+                if *suffix == UnsignedNumType::Unspecified =>
+            {
+                *suffix = *ty;
+            }
+            (ExprEnum::NumUnsigned(n, UnsignedNumType::Unspecified), Type::Signed(ty)) => {
+                if let Ok(n) = i64::try_from(*n) {
+                    self.inner = ExprEnum::NumSigned(n, *ty);
+                }
+            }
+            (ExprEnum::NumSigned(_, suffix), Type::Signed(ty))
+                if *suffix == SignedNumType::Unspecified =>
+            {
+                *suffix = *ty;
+            }
+            (
+                ExprEnum::ArrayLiteral(elems),
+                Type::Array(elem_ty, _) | Type::ArrayConst(elem_ty, _),
+            ) => {
+                for elem in elems {
+                    elem.annotate_numbers(checked, elem_ty);
+                }
+            }
+            (
+                ExprEnum::ArrayRepeatLiteral(elem, _),
+                Type::Array(elem_ty, _) | Type::ArrayConst(elem_ty, _),
+            ) => elem.annotate_numbers(checked, elem_ty),
+            (ExprEnum::TupleLiteral(fields), Type::Tuple(field_types)) => {
+                for (field, ty) in fields.iter_mut().zip(field_types) {
+                    field.annotate_numbers(checked, ty);
+                }
+            }
+            (ExprEnum::StructLiteral(name, fields), Type::Struct(expected_name))
+                if name == expected_name =>
+            {
+                if let Some(struct_def) = checked.struct_defs.get(name) {
+                    for (field_name, field) in fields {
+                        if let Some((_, ty)) =
+                            struct_def.fields.iter().find(|(name, _)| name == field_name)
+                        {
+                            field.annotate_numbers(checked, ty);
+                        }
+                    }
+                }
+            }
+            (
+                ExprEnum::EnumLiteral(name, variant_name, VariantExprEnum::Tuple(fields)),
+                Type::Enum(expected_name),
+            ) if name == expected_name => {
+                let field_types = checked
+                    .enum_defs
+                    .get(name)
+                    .and_then(|enum_def| enum_def.get_variant(variant_name))
+                    .and_then(|variant| variant.types());
+                if let Some(field_types) = field_types {
+                    for (field, ty) in fields.iter_mut().zip(field_types.iter()) {
+                        field.annotate_numbers(checked, ty);
+                    }
+                }
+            }
+            _ => {}
         }
     }
 }
